@@ -1,9 +1,329 @@
-/- C01 — executable model (core Lean only).  Stub. -/
+/-
+M-PROP — the faithful, executable model of grading propagation (shared by C01, C02, C04).
+
+Mirrors, after the repairs f66801e / b381671 / a42ba54 / e8a1b02 of /repo:
+  lists/block_list.py   BlockList.grade_blocks, propagate_gradings, check_consistency
+  items/block.py        Block.grade, copy_grading, is_defined, format_grading (simple / edge)
+  items/wires/axis.py   Axis.copy_grading, is_aligned, is_defined
+  items/wires/manager.py WireChopManager.grade, WirePropagateManager.grade/copy_neighbours/
+                        propagate_grading, is_simple, check_consistency, count
+  grading/grading.py    Grading.inverted, __eq__ (math.isclose, rel_tol = TOL), count
+  grading/chop.py       Chop.copy_preserving(inverted) (count kept, inversion parity flipped)
+
+Numbering: block `b`, axis `a` (0..2), wire `k` (0..3, the k-th pair of AXIS_PAIRS[a]):
+axis id `3*b+a`, wire id `12*b+4*a+k`.
+
+What is *not* computed here: the expansion ratio a chop yields on a wire of a given length
+(that is C03's subject).  It enters as the oracle `ev id inv w` ("total expansion of user chop
+`id`, inverted `inv` times mod 2, on wire `w`").  Iteration orders of `Axis.neighbours` and
+`Wire.coincidents` enter as the explicit schedule (`nbrs`, `coinc`).
+Core Lean only.
+-/
 import CBV.Model.Common
 import CBV.Gen.Tables
 
-namespace CBV.C01
+namespace CBV.Prop
 
-def handle (_op : String) (_args : List String) : Option String := none
+/-- a chop as a propagate/chop manager holds it: which user chop it descends from, its length
+    ratio, its resolved cell count, and whether it has been inverted an odd number of times -/
+structure Chop where
+  id : Nat
+  ratio : Rat
+  count : Nat
+  inv : Bool
+  deriving DecidableEq, Repr
+
+/-- one division of a Grading.specification: [length ratio, count, total expansion] -/
+structure Sec where
+  ratio : Rat
+  count : Nat
+  exp : Rat
+  deriving DecidableEq, Repr
+
+abbrev Spec := List Sec
+
+structure Inp where
+  nBlocks : Nat
+  /-- 8 vertex indexes per block (after vertex merging) -/
+  verts : List (List Nat)
+  /-- user chops per axis id (resolved counts), `[]` for an un-chopped axis -/
+  chops : Nat → List Chop
+  /-- schedule: iteration order of `Axis.neighbours` per axis id -/
+  nbrs : Nat → List Nat
+  /-- schedule: iteration order of `Wire.coincidents` per wire id -/
+  coinc : Nat → List Nat
+  /-- oracle: total expansion of user chop `id` with inversion parity `inv` on wire `w` -/
+  ev : Nat → Bool → Nat → Rat
+
+structure St where
+  /-- Grading.specification of every wire (by wire id) -/
+  spec : Nat → Spec
+  /-- the chops each axis' manager holds (by axis id) -/
+  mch : Nat → List Chop
+
+/-! ### geometry of the numbering -/
+
+def axisPair (a k : Nat) : Nat × Nat := (CBV.Gen.axisPairs.getD a []).getD k (0, 0)
+
+/-- the two vertex indexes of a wire, in the wire's own direction -/
+def wireVerts (inp : Inp) (w : Nat) : Nat × Nat :=
+  let b := w / 12
+  let p := axisPair ((w % 12) / 4) (w % 4)
+  let vs := inp.verts.getD b []
+  (vs.getD p.1 0, vs.getD p.2 0)
+
+/-- `Wire.is_coincident` -/
+def samePair (inp : Inp) (w w' : Nat) : Bool :=
+  let p := wireVerts inp w
+  let q := wireVerts inp w'
+  (p.1 == q.1 && p.2 == q.2) || (p.1 == q.2 && p.2 == q.1)
+
+/-- `Wire.is_aligned` (for coincident wires) -/
+def aligned (inp : Inp) (w w' : Nat) : Bool :=
+  let p := wireVerts inp w
+  let q := wireVerts inp w'
+  p.1 == q.1 && p.2 == q.2
+
+def axisWires (x : Nat) : List Nat := [4 * x, 4 * x + 1, 4 * x + 2, 4 * x + 3]
+def blockAxes (b : Nat) : List Nat := [3 * b, 3 * b + 1, 3 * b + 2]
+
+/-- `Axis.is_aligned`: alignment of the first coincident wire pair found; `none` = "not neighbours" -/
+def axisAligned (inp : Inp) (x y : Nat) : Option Bool :=
+  let pairs := (axisWires x).flatMap (fun w => (axisWires y).map (fun w' => (w, w')))
+  (pairs.find? (fun p => samePair inp p.1 p.2)).map (fun p => aligned inp p.1 p.2)
+
+/-! ### gradings -/
+
+def specOf (st : St) (w : Nat) : Spec := st.spec w
+def chopsOf (st : St) (x : Nat) : List Chop := st.mch x
+
+/-- `Grading.count` -/
+def count (s : Spec) : Nat := (s.map (·.count)).sum
+
+/-- `Grading.inverted` -/
+def invertSpec (s : Spec) : Spec := s.reverse.map (fun d => { d with exp := 1 / d.exp })
+
+def absR (q : Rat) : Rat := if q < 0 then -q else q
+def maxR (a b : Rat) : Rat := if a < b then b else a
+
+/-- `math.isclose(a, b, rel_tol=TOL)` with TOL = 1e-7 -/
+def isclose (a b : Rat) : Bool := absR (a - b) ≤ (1 / 10000000 : Rat) * maxR (absR a) (absR b)
+
+def secEq (a b : Sec) : Bool := isclose a.ratio b.ratio && isclose a.count b.count && isclose a.exp b.exp
+
+/-- `Grading.__eq__` -/
+def specEq : Spec → Spec → Bool
+  | [], [] => true
+  | a :: as, b :: bs => secEq a b && specEq as bs
+  | _, _ => false
+
+/-- the division a chop produces on a wire -/
+def secOn (inp : Inp) (w : Nat) (c : Chop) : Sec := ⟨c.ratio, c.count, inp.ev c.id c.inv w⟩
+
+/-- `Axis.is_defined` -/
+def axisDefined (st : St) (x : Nat) : Bool := (axisWires x).all (fun w => !(specOf st w).isEmpty)
+/-- `Block.is_defined` -/
+def blockDefined (st : St) (b : Nat) : Bool := (blockAxes b).all (axisDefined st)
+
+def setSpec (st : St) (w : Nat) (s : Spec) : St :=
+  { st with spec := fun w' => if w' = w then s else st.spec w' }
+def addChops (st : St) (x : Nat) (cs : List Chop) : St :=
+  { st with mch := fun x' => if x' = x then st.mch x ++ cs else st.mch x' }
+
+/-! ### grading one axis -/
+
+/-- `WireChopManager.grade`: every wire gets the divisions of the axis' chops appended -/
+def gradeChopped (inp : Inp) (st : St) (x : Nat) : St :=
+  (axisWires x).foldl (fun st w => setSpec st w (specOf st w ++ (chopsOf st x).map (secOn inp w))) st
+
+/-- `WirePropagateManager.copy_neighbours` for one wire: the last defined coincident wins -/
+def copyWire (inp : Inp) (st : St) (w : Nat) : St :=
+  (inp.coinc w).foldl (fun st cw =>
+    if (specOf st cw).isEmpty then st
+    else setSpec st w (if aligned inp cw w then specOf st cw else invertSpec (specOf st cw))) st
+
+/-- `WirePropagateManager.propagate_grading` for one wire -/
+def fillWire (inp : Inp) (st : St) (x w : Nat) : St :=
+  if (specOf st w).isEmpty then setSpec st w ((chopsOf st x).map (secOn inp w)) else st
+
+/-- `WirePropagateManager.grade` (idle while it holds no chops) -/
+def gradePropagated (inp : Inp) (st : St) (x : Nat) : St :=
+  if (chopsOf st x).isEmpty then st
+  else
+    let st := (axisWires x).foldl (copyWire inp) st
+    (axisWires x).foldl (fun st w => fillWire inp st x w) st
+
+def userChopped (inp : Inp) (x : Nat) : Bool := !(inp.chops x).isEmpty
+
+/-- `Axis.grade` -/
+def gradeAxis (inp : Inp) (st : St) (x : Nat) : St :=
+  if userChopped inp x then gradeChopped inp st x else gradePropagated inp st x
+
+/-- `BlockList.grade_blocks` -/
+def gradeBlocks (inp : Inp) (st : St) : St :=
+  (List.range (3 * inp.nBlocks)).foldl (gradeAxis inp) st
+
+/-- `Chop.copy_preserving(inverted)` -/
+def copyPreserving (inverted : Bool) (c : Chop) : Chop := { c with inv := if inverted then !c.inv else c.inv }
+
+/-! ### the propagation loop -/
+
+inductive Err where
+  | undefined | inconsistent | badSchedule | outOfFuel
+  deriving DecidableEq, Repr
+
+/-- `Axis.copy_grading`: returns the new state and whether a grading was copied -/
+def axisCopy (inp : Inp) (st : St) (x : Nat) : Except Err (St × Bool) :=
+  if axisDefined st x then .ok (st, false)
+  else
+    match (inp.nbrs x).find? (axisDefined st) with
+    | none => .ok (st, false)
+    | some nb =>
+      match axisAligned inp nb x with
+      | none => .error .badSchedule
+      | some true => .ok (gradeAxis inp (addChops st x ((chopsOf st nb).map (copyPreserving false))) x, true)
+      | some false =>
+        .ok (gradeAxis inp (addChops st x ((chopsOf st nb).reverse.map (copyPreserving true))) x, true)
+
+/-- `Block.copy_grading`: all three axes are tried, in order -/
+def blockCopy (inp : Inp) (st : St) (b : Nat) : Except Err (St × Bool) :=
+  if blockDefined st b then .ok (st, false)
+  else
+    match axisCopy inp st (3 * b) with
+    | .error e => .error e
+    | .ok r0 =>
+      match axisCopy inp r0.1 (3 * b + 1) with
+      | .error e => .error e
+      | .ok r1 =>
+        match axisCopy inp r1.1 (3 * b + 2) with
+        | .error e => .error e
+        | .ok r2 => .ok (r2.1, r0.2 || r1.2 || r2.2)
+
+/-- one pass of `for i in undefined_blocks` (ascending; removal of a defined block breaks the loop):
+    (state, remaining work-list, updated) -/
+def pass (inp : Inp) : St → List Nat → Except Err (St × List Nat × Bool)
+  | st, [] => .ok (st, [], false)
+  | st, b :: rest =>
+    if blockDefined st b then .ok (st, rest, true)
+    else
+      match blockCopy inp st b with
+      | .error e => .error e
+      | .ok r =>
+        match pass inp r.1 rest with
+        | .error e => .error e
+        | .ok p => .ok (p.1, b :: p.2.1, r.2 || p.2.2)
+
+/-- `BlockList.propagate_gradings`: the `while` loop with fuel -/
+def loop (inp : Inp) : Nat → St → List Nat → Except Err St
+  | 0, _, _ => .error .outOfFuel
+  | fuel + 1, st, wl =>
+    match wl with
+    | [] => .ok st
+    | _ :: _ =>
+      match pass inp st wl with
+      | .error e => .error e
+      | .ok r => if r.2.2 then loop inp fuel r.1 r.2.1 else .error .undefined
+
+/-! ### the final consistency check (repaired: also against coincident wires) -/
+
+def countsEqual (st : St) (x : Nat) : Bool :=
+  (axisWires x).all (fun w => count (specOf st w) == count (specOf st (4 * x)))
+
+def wireConsistent (inp : Inp) (st : St) (w : Nat) : Bool :=
+  (inp.coinc w).all (fun cw =>
+    count (specOf st w) == count (specOf st cw) &&
+    specEq (specOf st w) (if aligned inp cw w then specOf st cw else invertSpec (specOf st cw)))
+
+def axisConsistent (inp : Inp) (st : St) (x : Nat) : Bool :=
+  countsEqual st x && (axisWires x).all (wireConsistent inp st)
+
+def checkAll (inp : Inp) (st : St) : Bool := (List.range (3 * inp.nBlocks)).all (axisConsistent inp st)
+
+/-- the schedule handed in must list, for every wire, every wire of another block on the same vertex pair
+    (`BlockList.update_neighbours` guarantees it in the code) and only such wires -/
+def coincComplete (inp : Inp) : Bool :=
+  (List.range (12 * inp.nBlocks)).all (fun w =>
+    (List.range (12 * inp.nBlocks)).all (fun w' =>
+      if w / 12 != w' / 12 && samePair inp w w' then (inp.coinc w).contains w' else !(inp.coinc w).contains w'))
+
+def init (inp : Inp) : St := { spec := fun _ => [], mch := inp.chops }
+
+/-- `Mesh.grade`: grade_blocks, propagate_gradings, check_consistency -/
+def run (inp : Inp) : Except Err St :=
+  if !coincComplete inp then .error .badSchedule
+  else
+    match loop inp (4 * inp.nBlocks + 1) (gradeBlocks inp (init inp)) (List.range inp.nBlocks) with
+    | .error e => .error e
+    | .ok st => if checkAll inp st then .ok st else .error .inconsistent
+
+/-! ### what is written -/
+
+/-- `axis.count`: the axis-level grading for a chopped axis, wire 0 otherwise -/
+def writtenCount (inp : Inp) (st : St) (x : Nat) : Nat :=
+  if userChopped inp x then ((inp.chops x).map (·.count)).sum else count (specOf st (4 * x))
+
+/-- `WireManagerBase.is_simple` -/
+def isSimple (st : St) (x : Nat) : Bool :=
+  [4 * x + 1, 4 * x + 2, 4 * x + 3].all (fun w => specEq (specOf st w) (specOf st (4 * x)))
+
+end CBV.Prop
+
+/-! ### line protocol (C01/C02/C04 share the entry point `c01.run`) -/
+namespace CBV.C01
+open CBV CBV.Prop
+
+def parseChop (s : String) : Option (Nat × Chop) :=
+  match s.splitOn ":" with
+  | [x, id, r, c] => do
+      some ((← x.toNat?), ⟨(← id.toNat?), (← parseRat? r), (← c.toNat?), false⟩)
+  | _ => none
+
+def parseNested (s : String) : Option (List (List Nat)) :=
+  -- `a,b;c;;d` : lists separated by `;`, items by `,`
+  (s.splitOn ";").mapM (fun part => if part.isEmpty then some [] else (part.splitOn ",").mapM String.toNat?)
+
+def showSec (d : Sec) : String := s!"{showRat d.ratio}:{d.count}:{showRat d.exp}"
+def showSpec (s : Spec) : String := "+".intercalate (s.map showSec)
+
+def showErr : Err → String
+  | .undefined => "undefined" | .inconsistent => "inconsistent"
+  | .badSchedule => "bad-schedule" | .outOfFuel => "out-of-fuel"
+
+/-- `c01.run <n> <verts a,b,..;…> <chops x:id:ratio:count|…|-> <nbrs ;-lists> <coinc ;-lists> <nIds> <ev [..]>`
+    → `ok C[counts per axis] S[simple flag per axis] W[spec per wire ;-separated]` or `err <kind>`.
+    `ev` is indexed `((2*id + inv) * 12n + w)`. -/
+def handleRun (args : List String) : Option String :=
+  match args with
+  | [n, verts, chops, nbrs, coinc, _nIds, ev] => do
+      let n ← n.toNat?
+      let verts ← parseNested verts
+      let cl ← if chops == "-" then some [] else (chops.splitOn "|").mapM parseChop
+      let nbrs ← parseNested nbrs
+      let coinc ← parseNested coinc
+      let ev ← parseRatList? ev
+      let eva := ev.toArray
+      let nb := nbrs.toArray
+      let co := coinc.toArray
+      let inp : Inp := {
+        nBlocks := n, verts := verts,
+        chops := fun x => (cl.filter (fun p => p.1 == x)).map (·.2),
+        nbrs := fun x => nb.getD x [], coinc := fun w => co.getD w [],
+        ev := fun id inv w => eva.getD ((2 * id + (if inv then 1 else 0)) * (12 * n) + w) 0 }
+      if verts.length != n || nbrs.length != 3 * n || coinc.length != 12 * n then none
+      else
+        match run inp with
+        | .error e => some ("err " ++ showErr e)
+        | .ok st =>
+          let axes := List.range (3 * n)
+          let cs := ",".intercalate (axes.map (fun x => toString (writtenCount inp st x)))
+          let ss := ",".intercalate (axes.map (fun x => if isSimple st x then "1" else "0"))
+          let ws := ";".intercalate ((List.range (12 * n)).map (fun w => showSpec (specOf st w)))
+          some s!"ok C[{cs}] S[{ss}] W[{ws}]"
+  | _ => none
+
+def handle (op : String) (args : List String) : Option String :=
+  match op with
+  | "c01.run" => handleRun args
+  | _ => none
 
 end CBV.C01
